@@ -391,7 +391,7 @@ impl Report {
             }
         }
         if let Some(a) = j.get("samples").and_then(|x| x.as_arr()) {
-            for s in a {
+            for s in a.iter().take(3) {
                 if self.samples.len() < self.max_samples.max(8) {
                     self.samples.push(s.clone());
                 }
